@@ -233,7 +233,7 @@ class Unit:
                 return ("len", args[0])
             if ls == "is_empty" and len(args) == 1:
                 return ("bin", "Eq", ("len", args[0]), ("const", 0, "usize"))
-            return ("call", e[1], args)
+            return ("call", e[1], args) + tuple(e[3:])
         if k == "un":
             a = self.canon(e[2])
             if e[1] == "PtrMetadata":
